@@ -13,7 +13,7 @@ NextOfClass(u) == \A v \in Updates : (origin[v] = "-" /\ (v \in Small <=> u \in 
 
 Next ==
   \/ \E s \in Ids, u \in Updates : NextOfClass(u) /\ Bcast(s, u)
-  \/ \E s \in Ids : \E q \in Orders(G(s), Min(Fanout, Cardinality(G(s)))) : Tick(s, q)
+  \/ \E s \in Ids : \E k \in 1 .. Min(Fanout, Cardinality(G(s))) : \E q \in Orders(G(s), k) : Tick(s, q)
   \/ \E pk \in net : Deliver(pk)
   \/ (used.stop < MaxStop /\ \E n \in Ids, how \in {"left", "crashed"} : Stop(n, how))
   \/ \E m \in Ids, n \in Ids : Detect(m, n)
